@@ -1053,3 +1053,198 @@ Section Consequences.
     destruct (HF Ho) as (F1 & _). exact F1.
   Qed.
 End Consequences.
+
+(* every step either leaves status.tag's content alone or replaces it by the complete content the
+   renaming writer intended: "every crash prefix shows the old or the new content" *)
+Lemma handle_pub : forall v tid w m,
+  w_pub (fst (handle v tid w m)) = w_pub w \/ w_pub (fst (handle v tid w m)) = Some (w_intent w).
+Proof. intros v tid w m. handle_cases w m; auto. Qed.
+
+Theorem status_tag_old_or_new : forall v evt msgs chan tag0 ops sched t,
+  let c := prun v (start v (init_world evt msgs chan tag0) ops) sched in
+  let c' := sstep (handle v) c t in
+  w_overlap (shared c') = false ->
+  tag_content (shared c') = tag_content (shared c) \/
+  tag_content (shared c') = Some (w_intent (shared c)).
+Proof.
+  intros v evt msgs chan tag0 ops sched t c c' Ho.
+  assert (Hc' : c' = prun v (start v (init_world evt msgs chan tag0) ops) (sched ++ [t])).
+  { unfold c', c, prun. now rewrite run_snoc. }
+  assert (Ho0 : w_overlap (shared c) = false).
+  { destruct (sstep_cases (handle v) c t) as [E|(m & k & Hn & E)]; fold c' in E.
+    - now rewrite <- E.
+    - rewrite E in Ho. simpl in Ho.
+      pose proof (handle_ext v t (shared c) m) as (_ & _ & _ & H). auto. }
+  pose proof (status_tag_atomic v evt msgs chan tag0 ops sched Ho0) as H0. fold c in H0.
+  pose proof (status_tag_atomic v evt msgs chan tag0 ops (sched ++ [t])) as H1.
+  rewrite <- Hc' in H1. specialize (H1 Ho).
+  rewrite H0, H1.
+  destruct (sstep_cases (handle v) c t) as [E|(m & k & Hn & E)]; fold c' in E.
+  - left. now rewrite E.
+  - rewrite E. simpl. apply handle_pub.
+Qed.
+
+(* ========================================================================================== *)
+(* 7. refutation witnesses                                                                      *)
+(* ========================================================================================== *)
+(* a decision procedure for "from instant q on, never all ready and never a deadline stamp" *)
+Definition never_since (h : list hentry) (q : Z) : bool :=
+  forallb (fun e => if q <=? fst (fst e) then negb (fcontains (snd (fst e)) F_ALL) && negb (snd e) else true) h
+  && negb (fcontains (flags_at h q) F_ALL).
+
+Lemma never_since_tu : forall h q,
+  forallb (fun e : hentry => if q <=? fst (fst e) then negb (fcontains (snd (fst e)) F_ALL) && negb (snd e) else true) h = true ->
+  forall t, q <= t -> timeup_at h t = false.
+Proof.
+  intros h q H t Ht. unfold timeup_at.
+  induction h as [|[[t0 fl] b] h IH]; simpl in *; auto.
+  apply andb_true_iff in H. destruct H as [He Hall]. rewrite (IH Hall), orb_false_r.
+  destruct (Z.eqb_spec t0 t) as [->|Hne]; simpl; auto.
+  destruct (Z.leb_spec q t) as [_|Hx]; [|lia].
+  apply andb_true_iff in He. destruct He as [_ He]. now apply negb_true_iff in He.
+Qed.
+
+Lemma never_since_ar : forall h q,
+  forallb (fun e : hentry => if q <=? fst (fst e) then negb (fcontains (snd (fst e)) F_ALL) && negb (snd e) else true) h = true ->
+  fcontains (flags_at h q) F_ALL = false ->
+  forall t, q <= t -> fcontains (flags_at h t) F_ALL = false.
+Proof.
+  intros h q H Hq t Ht.
+  induction h as [|[[t0 fl] b] h IH]; simpl in *; auto.
+  apply andb_true_iff in H. destruct H as [He Hall].
+  destruct (Z.leb_spec t0 t) as [Hle|Hgt].
+  - destruct (Z.leb_spec q t0) as [Hq0|Hq0].
+    + apply andb_true_iff in He. destruct He as [He _]. now apply negb_true_iff in He.
+    + destruct (Z.leb_spec t0 q) as [_|Hx]; [exact Hq|lia].
+  - destruct (Z.leb_spec t0 q) as [Hx|_]; [lia|]. now apply IH.
+Qed.
+
+Lemma never_since_sound : forall h q, never_since h q = true ->
+  forall t, q <= t -> all_ready_at h t = false /\ timeup_at h t = false.
+Proof.
+  intros h q H t Ht. unfold never_since in H. apply andb_true_iff in H. destruct H as [Hall Hq].
+  apply negb_true_iff in Hq. split.
+  - unfold all_ready_at. eapply never_since_ar; eauto.
+  - eapply never_since_tu; eauto.
+Qed.
+
+Lemma not_truthful : forall w err q tk fl,
+  never_since (w_hist w) q = true -> ~ truthful w (RQuery true err q tk fl false).
+Proof.
+  intros w err q tk fl H [Hl|(t & [Ht _] & Hj)]; [discriminate|].
+  destruct (never_since_sound _ _ H t Ht) as [H1 H2]. rewrite H1, H2 in Hj. destruct Hj; discriminate.
+Qed.
+
+(* F10: K and L report; R completes ALL_READY (message 1); the key keeper resets (flags lose
+   KEY_LATCH_READY, tick := 0); a query is created; R's SetProvisionFinished(true) (message 2)
+   stamps a fresh tick; the query is answered finished = true, key latch not ready, no deadline *)
+Definition f10_world : world :=
+  init_world true (set_msg default_msgs MKeyKeeper [107; 109]%N) Consts.kk_disable_state None.
+Definition f10_ops : list op := [OpReport F_K; OpReport F_L; OpReport F_R; OpReset; OpQuery QNow].
+Definition f10_sched : list nat := [0; 1; 2; 3; 3; 4; 2; 4; 4; 4; 4; 4]%nat.
+
+Theorem stale_finish_refuted :
+  let c := prun current_code (start current_code f10_world f10_ops) f10_sched in
+  exists res, result_of c 4 = Some res /\
+    match res with RQuery fin _ q _ fl la =>
+      fin = true /\ la = false /\ 0 < q /\ fcontains fl F_K = false | RDone => False end /\
+    ~ truthful (shared c) res /\
+    KnownClass_C16_stale_stamp current_code f10_world f10_ops f10_sched = true.
+Proof.
+  eexists. split; [vm_compute; reflexivity|]. split; [|split].
+  - vm_compute. repeat split; reflexivity.
+  - apply not_truthful. vm_compute. reflexivity.
+  - vm_compute. reflexivity.
+Qed.
+
+(* the same schedule on the repaired code: the query is answered finished = false *)
+Theorem stale_finish_repaired :
+  let c := prun repaired_code (start repaired_code f10_world f10_ops) f10_sched in
+  exists err q tk fl la, result_of c 4 = Some (RQuery false err q tk fl la).
+Proof. vm_compute. repeat eexists. Qed.
+
+(* F12: a query naming instant 0 (missing / unparsable x-ms-azure-time_tick) on a fresh agent *)
+Definition f12_ops : list op := [OpQuery (QConst 0)].
+Definition f12_sched : list nat := repeat 0%nat 10.
+
+Theorem zero_tick_refuted :
+  let c := prun current_code (start current_code world0 f12_ops) f12_sched in
+  exists res, result_of c 0 = Some res /\
+    match res with RQuery fin _ q tk fl la =>
+      fin = true /\ la = false /\ q = 0 /\ tk = 0 /\ fl = 0%N | RDone => False end /\
+    ~ truthful (shared c) res /\
+    KnownClass_C16_stale_stamp current_code world0 f12_ops f12_sched = false.
+Proof.
+  eexists. split; [vm_compute; reflexivity|]. split; [|split].
+  - vm_compute. repeat split; reflexivity.
+  - apply not_truthful. vm_compute. reflexivity.
+  - vm_compute. reflexivity.
+Qed.
+
+Theorem zero_tick_repaired :
+  let c := prun repaired_code (start repaired_code world0 f12_ops) f12_sched in
+  exists err q tk fl la, result_of c 0 = Some (RQuery false err q tk fl la).
+Proof. vm_compute. repeat eexists. Qed.
+
+(* F11: two deadline-path writers overlap on status.tag.tmp.  T0 opens the temp file; the key
+   keeper's status message changes; T1 opens (truncating the same inode), writes its content and
+   renames it to status.tag; T0 then writes 60 bytes of ITS content -- straight into status.tag. *)
+Definition f11_ops : list op := [OpTimeup; OpTimeup; OpSetMsg MKeyKeeper [120]%N].
+Definition f11_sched : list nat := repeat 0%nat 11 ++ [2%nat] ++ repeat 1%nat 108 ++ repeat 0%nat 60.
+
+Theorem shared_tmp_refuted :
+  let c := prun current_code (start current_code world0 f11_ops) f11_sched in
+  KnownClass_C16_overlapping_writers current_code world0 f11_ops f11_sched = true /\
+  tag_content (shared c) <> w_pub (shared c) /\
+  (exists published, w_pub (shared c) = Some published /\
+     exists mixed, tag_content (shared c) = Some mixed /\
+       firstn 60 mixed <> firstn 60 published /\ skipn 60 mixed = skipn 60 published).
+Proof.
+  split; [vm_compute; reflexivity|]. split.
+  - vm_compute. discriminate.
+  - eexists. split; [vm_compute; reflexivity|]. eexists. split; [vm_compute; reflexivity|].
+    split; [vm_compute; discriminate|vm_compute; reflexivity].
+Qed.
+
+(* ========================================================================================== *)
+(* 8. the property-level corollaries                                                            *)
+(* ========================================================================================== *)
+Lemma finished_truthful_each_repair : forall v evt msgs chan tag0 ops sched t fin err q tk fl la,
+  let w0 := init_world evt msgs chan tag0 in
+  let c := prun v (start v w0 ops) sched in
+  result_of c t = Some (RQuery fin err q tk fl la) ->
+  (v_atomic v = true \/ KnownClass_C16_stale_stamp v w0 ops sched = false) ->
+  (v_guard v = true \/ KnownClass_C16_nonpositive_query_tick q = false) ->
+  truthful (shared c) (RQuery fin err q tk fl la).
+Proof.
+  intros v evt msgs chan tag0 ops sched t fin err q tk fl la w0 c Hr Hs Hq.
+  apply (finished_truthful_gen v evt msgs chan tag0 ops sched t _ Hr).
+  - destruct Hs as [Ha|Hs]; [now apply atomic_never_stale|exact Hs].
+  - destruct Hq as [Hg|Hq]; [left; exact Hg|right; apply Z.leb_gt in Hq; exact Hq].
+Qed.
+
+Lemma finished_truthful_partial : forall evt msgs chan tag0 ops sched t fin err q tk fl la,
+  let w0 := init_world evt msgs chan tag0 in
+  let c := prun current_code (start current_code w0 ops) sched in
+  result_of c t = Some (RQuery fin err q tk fl la) ->
+  KnownClass_C16_stale_stamp current_code w0 ops sched = false ->
+  KnownClass_C16_nonpositive_query_tick q = false ->
+  truthful (shared c) (RQuery fin err q tk fl la).
+Proof.
+  intros evt msgs chan tag0 ops sched t fin err q tk fl la w0 c Hr Hs Hq.
+  apply (finished_truthful_each_repair current_code evt msgs chan tag0 ops sched t); auto.
+Qed.
+
+Lemma finished_truthful_repaired : forall evt msgs chan tag0 ops sched t res,
+  let c := prun repaired_code (start repaired_code (init_world evt msgs chan tag0) ops) sched in
+  result_of c t = Some res -> truthful (shared c) res.
+Proof.
+  intros evt msgs chan tag0 ops sched t res c Hr.
+  apply (finished_truthful_gen repaired_code evt msgs chan tag0 ops sched t _ Hr).
+  - apply atomic_never_stale. reflexivity.
+  - left. reflexivity.
+Qed.
+
+Lemma polls_are_schedules : forall v w0 ops polls,
+  exists sched, run_polls (handle v) is_sync poll_fuel (start v w0 ops) polls = prun v (start v w0 ops) sched.
+Proof. intros. apply run_polls_is_run. Qed.
